@@ -4,6 +4,8 @@ import KdVerif.Proofs.Declared
 import KdVerif.Gen.Decoders
 import KdVerif.Gen.Host
 import KdVerif.Proofs.EndToEnd
+import KdVerif.Gen.PyIRFm
+import KdVerif.Proofs.PyIRFm
 /-
   C14 (column half) — every formatted line is the concatenation, in a fixed order, of the enabled
   columns; switching one column off removes exactly that column and alters no other; colouring
@@ -733,6 +735,145 @@ example :
          processSpec (declaredTables EndToEnd.exEnv p.1.threadMap (p.1.events.take 5)) 9,
          processSpec (declaredTables EndToEnd.exEnv p.1.threadMap (p.1.events.take 6)) 8))
       = some ("(50)", "new(50)", "Error: tid 8") := by
+  decide +kernel
+
+end KdVerif.C14
+
+/-! ## Third part: translation tie — the source text of the line builders, interpreted, is the model
+
+  `tools/gen_pyir_fm.py` translates `_format_timestamp`, `_format_process`, `_format_kevent`, `_format_trace`,
+  `_format_callstack`, `_format_log` of `pykdebugparser/pykdebugparser.py` (pure `ast`, on every run) into the
+  Python-subset IR of `Model/PyIRFm` (`Gen/PyIRFm.lean`): f-strings as lists of pieces with the format specifications
+  `<N` / `>N` / `016x`, `+`, `str()`, `hex()`, `' ' * i`, `'\n'.join(…)`, conditional expressions, the two dict lookups with
+  their defaults, the trace-code map, `DgbFuncQual(q).name` under `try/except ValueError`, the `enumerate` loop, the calls
+  `self._format_timestamp(…)` / `self._format_process(…)` (answered by interpreting the translated callee), the two colour
+  operations as the abstract `Colour`.  Both spellings of a conditional append (`x += E if c else ''` / `if c: x += E`) are
+  one node; the alias `tid = event.tid` is inlined.  `PyIRFm.runKevent` … interpret a method on a `Ctx`
+  (switches, colour, tables, the reflected `DgbFuncQual`, which wall-clock attributes are set).
+
+  So the subject of `kevent_is_join`, `column_off`, `process_column_lookup`, `process_column_spec`, `e2e_line_shape` … —
+  `Format.formatKevent / formatTrace / formatCallstack / formatLog / formatProcess / formatTimestamp` — is the translated
+  source, for every setting and argument.  OUTSIDE the tie (as outside the model): the wall-clock branch of
+  `_format_timestamp` (the opaque statement `.wallClock`, answered `.error .unmodelled`), `str(trace)`, `str(uuid)`,
+  `strftime`, pygments and termcolor; the Python format primitives are the functions of `Model/Format`. -/
+namespace KdVerif.C14
+open KdVerif.Format KdVerif.PyIRFm
+open KdVerif.Filters (LogRec)
+
+/-- **The methods generated from the source text are, node for node, the ones the theorems below were proved for**
+    (`Spec/PyIRFmExpected`, quoting the Python), and the translator met nothing outside the subset. -/
+theorem source_is_expected_ir :
+    Gen.PyIRFm.formatTimestamp = PyIRFm.Expected.formatTimestamp ∧
+    Gen.PyIRFm.formatProcess = PyIRFm.Expected.formatProcess ∧
+    Gen.PyIRFm.formatKevent = PyIRFm.Expected.formatKevent ∧
+    Gen.PyIRFm.formatTrace = PyIRFm.Expected.formatTrace ∧
+    Gen.PyIRFm.formatCallstack = PyIRFm.Expected.formatCallstack ∧
+    Gen.PyIRFm.formatLog = PyIRFm.Expected.formatLog ∧
+    Gen.PyIRFm.notes = [] := by decide
+
+/-- the generated program is the expected one -/
+theorem source_prog_is_expected : Gen.PyIRFm.prog = PyIRFm.Expected.prog := by
+  obtain ⟨h1, h2, h3, h4, h5, h6, _⟩ := source_is_expected_ir
+  simp only [Gen.PyIRFm.prog, PyIRFm.Expected.prog, h1, h2, h3, h4, h5, h6]
+
+/-- **`_format_timestamp` of the source, interpreted**: when at least one of the five wall-clock attributes is `None`
+    (the model's assumption; `tm` says which are set) it is `formatTimestamp` = `str(ts) + ' '`; when all five are set the
+    interpreter reaches the opaque wall-clock branch and answers `unmodelled` — that branch is outside the model. -/
+theorem format_timestamp_ir_eq_model (sh : Show) (c : Colour) (t : Format.Tables) (qe : EnumDef) (tm : TimeSet) (ts : Nat) :
+    runTimestamp Gen.PyIRFm.prog ⟨sh, c, t, qe, tm⟩ ts =
+      if tm.anyNone then .ok (formatTimestamp ts) else .error .unmodelled := by
+  rw [source_prog_is_expected]; exact runTimestamp_expected ⟨sh, c, t, qe, tm⟩ ts
+
+/-- **`_format_process` of the source, interpreted, is `formatProcess`** — for every pair of tables and every thread id
+    (so `process_column_lookup`, `process_column_spec`, `e2e_process_column` speak about the translated source). -/
+theorem format_process_ir_eq_model (sh : Show) (c : Colour) (t : Format.Tables) (qe : EnumDef) (tm : TimeSet) (tid : Nat) :
+    runProcess Gen.PyIRFm.prog ⟨sh, c, t, qe, tm⟩ tid = .ok (formatProcess t tid) := by
+  rw [source_prog_is_expected]; exact runProcess_expected ⟨sh, c, t, qe, tm⟩ tid
+
+/-- **`_format_kevent` of the source, interpreted, is `formatKevent`** — for all 2^6 switch settings, every enum, code
+    map, pair of tables and event (`_format_timestamp` on its tick branch). -/
+theorem format_kevent_ir_eq_model (sh : Show) (c : Colour) (t : Format.Tables) (qe : EnumDef) (tm : TimeSet)
+    (htm : tm.anyNone = true) (codes : List (Nat × String)) (e : Kevent) :
+    runKevent Gen.PyIRFm.prog ⟨sh, c, t, qe, tm⟩ codes e = .ok (formatKevent sh qe codes t e) := by
+  rw [source_prog_is_expected]; exact runKevent_expected ⟨sh, c, t, qe, tm⟩ htm codes e
+
+/-- **`_format_trace` of the source, interpreted, is `formatTrace`** — every switch setting, every colour machinery
+    (`highlight(…).strip()` = `c.hlTrace`), every pair of tables, every trace. -/
+theorem format_trace_ir_eq_model (sh : Show) (c : Colour) (t : Format.Tables) (qe : EnumDef) (tm : TimeSet)
+    (htm : tm.anyNone = true) (tr : TraceRec) :
+    runTrace Gen.PyIRFm.prog ⟨sh, c, t, qe, tm⟩ tr = .ok (formatTrace sh c t tr) := by
+  rw [source_prog_is_expected]; exact runTrace_expected ⟨sh, c, t, qe, tm⟩ htm tr
+
+/-- **`_format_callstack` of the source, interpreted, is `formatCallstack`** — every switch setting, pair of tables and
+    callstack (any number of frames: the `enumerate` loop by induction). -/
+theorem format_callstack_ir_eq_model (sh : Show) (c : Colour) (t : Format.Tables) (qe : EnumDef) (tm : TimeSet)
+    (htm : tm.anyNone = true) (cs : Callstack) :
+    runCallstack Gen.PyIRFm.prog ⟨sh, c, t, qe, tm⟩ cs = .ok (formatCallstack sh t cs) := by
+  rw [source_prog_is_expected]; exact runCallstack_expected ⟨sh, c, t, qe, tm⟩ htm cs
+
+/-- **`_format_log` of the source, interpreted, is `formatLog`** — every colour machinery (`colored(s, c)` = `c.colored`),
+    pair of tables, time text and log record; whatever the switches and the wall-clock attributes are (the method
+    consults none of them). -/
+theorem format_log_ir_eq_model (sh : Show) (c : Colour) (t : Format.Tables) (qe : EnumDef) (tm : TimeSet)
+    (timeString : String) (l : LogRec) :
+    runLog Gen.PyIRFm.prog ⟨sh, c, t, qe, tm⟩ timeString l = .ok (formatLog c t timeString l) := by
+  rw [source_prog_is_expected]; exact runLog_expected ⟨sh, c, t, qe, tm⟩ timeString l
+
+/-- The column theorems, read on the translated source: the interpreted `_format_kevent` is the join of the enabled
+    columns (`kevent_is_join` through `format_kevent_ir_eq_model`). -/
+theorem kevent_ir_is_join (sh : Show) (c : Colour) (t : Format.Tables) (qe : EnumDef) (tm : TimeSet)
+    (htm : tm.anyNone = true) (codes : List (Nat × String)) (e : Kevent) :
+    runKevent Gen.PyIRFm.prog ⟨sh, c, t, qe, tm⟩ codes e = .ok (joinCols sh (keventCols qe codes t e)) := by
+  rw [format_kevent_ir_eq_model sh c t qe tm htm, kevent_is_join]
+
+/-- … and the interpreted `_format_trace` is the join of the enabled header columns followed by the body. -/
+theorem trace_ir_is_header_body (sh : Show) (c : Colour) (t : Format.Tables) (qe : EnumDef) (tm : TimeSet)
+    (htm : tm.anyNone = true) (tr : TraceRec) :
+    runTrace Gen.PyIRFm.prog ⟨sh, c, t, qe, tm⟩ tr =
+      .ok (joinCols sh (headerCols t tr.timestamp tr.tid) ++ (if c.on then c.hlTrace tr.body else tr.body)) := by
+  rw [format_trace_ir_eq_model sh c t qe tm htm, trace_is_header_body]
+
+/-! ### non-vacuity: the generated methods on concrete values -/
+
+private instance exceptDecEq {ε α : Type} [DecidableEq ε] [DecidableEq α] : DecidableEq (Except ε α)
+  | .ok a, .ok b => if h : a = b then isTrue (by rw [h]) else isFalse (by intro e; cases e; exact h rfl)
+  | .error a, .error b => if h : a = b then isTrue (by rw [h]) else isFalse (by intro e; cases e; exact h rfl)
+  | .ok _, .error _ => isFalse (by intro e; cases e)
+  | .error _, .ok _ => isFalse (by intro e; cases e)
+
+private def irTabs : Format.Tables := { threadsPids := [(7, 42), (9, -1)], pidsNames := [(42, "launchd")] }
+private def irCx (sh : Show) (c : Colour) : Ctx := ⟨sh, c, irTabs, Gen.Enums.DgbFuncQual, { numer := true, denom := true }⟩
+private def irEv : Kevent :=
+  { timestamp := 1234, data := [39, 0, 255, 92, 10, 65], values := [], tid := 7, debugid := 0x040c0005,
+    eventid := 0x040c0004, qual := 1 }
+
+/-- the hypothesis `anyNone` is met by the command-line tool's setting (none of the five set) and by partial settings -/
+example : ({} : TimeSet).anyNone = true ∧ ({ numer := true, denom := true } : TimeSet).anyNone = true := by decide
+
+/-- an event line through the generated `_format_kevent` (known code, qualifier name, hex tid, declared process, bytes
+    with quote / escape characters) … -/
+example : runKevent Gen.PyIRFm.prog (irCx { tid := true } Colour.off) [(0x040c0004, "BSC_getpid")] irEv
+    = .ok ("1234 " ++ "BSC_getpid (0x40c0004)" ++ spaces 36 ++ "DBG_FUNC_START " ++ "0x7" ++ spaces 9
+      ++ "launchd(42)" ++ spaces 16 ++ "b\"'\\x00\\xff\\\\\\nA\"" ++ spaces 17) := by decide +kernel
+
+/-- … the `except ValueError` branch and an undeclared thread … -/
+example : runKevent Gen.PyIRFm.prog (irCx { timestamp := false, name := false, process := true, args := false } Colour.off) []
+    { irEv with tid := 8, qual := 5 } = .ok ("Error" ++ spaces 11 ++ "Error: tid 8" ++ spaces 15) := by decide +kernel
+
+/-- … `_format_process` on the `-1` marker, `_format_timestamp` on both of its branches … -/
+example : runProcess Gen.PyIRFm.prog (irCx {} Colour.off) 9 = .ok "Error: tid 9" ∧
+    runTimestamp Gen.PyIRFm.prog (irCx {} Colour.off) 77 = .ok "77 " ∧
+    runTimestamp Gen.PyIRFm.prog ⟨{}, Colour.off, irTabs, Gen.Enums.DgbFuncQual, ⟨true, true, true, true, true⟩⟩ 77
+      = .error .unmodelled := by decide +kernel
+
+/-- … a trace line, a callstack of two frames (attributed / unattributed, the second indented by one space) and a
+    coloured log line through the generated methods. -/
+example : runTrace Gen.PyIRFm.prog (irCx { tid := true } Colour.off) ⟨5, 7, "getpid(), pid: 42"⟩
+    = .ok ("5 " ++ "          7 " ++ "launchd(42)" ++ spaces 23 ++ "getpid(), pid: 42") := by decide +kernel
+example : runCallstack Gen.PyIRFm.prog (irCx {} Colour.off) ⟨5, 7, [⟨0x1000, some "UUID", 0x10⟩, ⟨0xffffffffffffffff1, none, 0⟩]⟩
+    = .ok ("5 launchd(42)" ++ spaces 23 ++ "\nUUID:0x0000000000000010\n 0xffffffffffffffff1") := by decide +kernel
+example : runLog Gen.PyIRFm.prog (irCx {} Colour.termcolor) "2024-01-01 00:00:00.000001" ⟨7, "launchd", 42, "hi"⟩
+    = .ok ("\x1b[32m2024-01-01 00:00:00.000001 \x1b[0m \x1b[35mlaunchd(42)" ++ spaces 16 ++ "\x1b[0m \x1b[97mhi\x1b[0m") := by
   decide +kernel
 
 end KdVerif.C14
